@@ -21,9 +21,14 @@ IMPORTS = ("From LV Require Import Common.Cases Cluster.Flat Cluster.FlatQ Cogna
 
 CONS = list("ptkmnslrbdgh")
 VOW = list("aeiou")
-METHODS_STUB = ["upgma", "single", "complete", "ward"]
-METHODS_REAL = ["upgma", "single", "complete"]
-COQ_METH = {"upgma": "Upgma", "single": "Single", "complete": "Complete", "ward": "Upgma"}
+METHODS_STUB = ["upgma", "single", "complete", "ward"] * 3 + ["mcl", "external"]
+METHODS_REAL = ["upgma", "single", "complete"] * 4 + ["mcl", "external"]
+# 'mcl' and 'external' (an external_function supplied by the harness) are not modelled: what the
+# routine returned for each matrix is recorded, checked against the contract (every position has an
+# id in 1..n) by a verified checker, and replayed into the generic model partial_cluster_any
+ORACLE_METHODS = ("mcl", "external")
+COQ_METH = {"upgma": "Upgma", "single": "Single", "complete": "Complete", "ward": "Upgma",
+            "mcl": "Upgma", "external": "Upgma"}
 GRIDS = {
     "eighths": [F(k, 8) for k in range(0, 9)],
     "quarters": [F(k, 4) for k in range(0, 6)],
@@ -218,6 +223,36 @@ def apply_edit(x, edit):
         del x[edit[1]]
 
 
+def fix_ext(rng, spec):
+    """An external clustering function is described by a seed; 'wild' = its ids go up to 3n
+    (outside the contract), only together with post-processing, where the clauses do not need it."""
+    if spec["method"] == "external":
+        ext = dict(spec.get("ext") or {"seed": rng.randrange(10 ** 6), "wild": rng.random() < 0.3})
+        if not spec["post"]:
+            ext["wild"] = False
+        spec["ext"] = ext
+    else:
+        spec.pop("ext", None)
+    return spec
+
+
+def ext_function(ext, record):
+    """external_function(threshold, matrix, taxa=..., revert=True) -> {position: cluster id}: a
+    deterministic pseudo-random partition of the positions with arbitrary (non-contiguous) labels."""
+    import random as _random
+
+    def f(threshold, matrix, taxa=None, revert=True):
+        n = len(matrix)
+        h = zlib.crc32(repr((ext["seed"], n, [[str(F(x)) for x in row] for row in matrix])).encode())
+        rnd = _random.Random(h)
+        nb = rnd.randint(1, n)
+        labels = rnd.sample(range(1, (3 * n if ext["wild"] else n) + 1), nb)
+        out = {i: labels[rnd.randrange(nb)] for i in range(n)}
+        record(matrix, out)
+        return out
+    return f
+
+
 def gen_call(rng, stream):
     spec = {"imap": rng.random() < 0.6, "post": rng.random() < 0.7}
     if stream == "stub":
@@ -226,7 +261,7 @@ def gen_call(rng, stream):
     else:
         spec["method"] = rng.choice(METHODS_REAL)
         spec["thr"] = rng.choice(THR_REAL)
-    return spec
+    return fix_ext(rng, spec)
 
 
 def gen_pre(rng, case):
@@ -246,7 +281,9 @@ def gen_pre(rng, case):
         omit = [n for n in gen_omit(rng) if n not in ("ref", "idtype")] if rng.random() < 0.4 else []
         apply_omit(spec, omit)
         del spec["stream"]
-        pre.append(spec)
+        if case.get("ext"):
+            spec["ext"] = dict(case["ext"])
+        pre.append(fix_ext(rng, spec))
     return pre
 
 
@@ -259,6 +296,7 @@ def gen_case(rng, stream, big=False):
     else:
         case["stub"] = None
     apply_omit(case, gen_omit(rng))
+    fix_ext(rng, case)
     case["pre"] = gen_pre(rng, case) if rng.random() < 0.35 else []
     case["input"] = "file" if rng.random() < 0.3 else "dict"
     case["cells"] = [gen_cell(rng, t) for _, _, t in case["rows"]] if rng.random() < 0.5 else None
@@ -406,6 +444,7 @@ def run_impl(case):
     from_file = case.get("input", "dict") == "file"
     cells = case.get("cells") or ["list"] * len(case["rows"])
     saved_pb, saved_calign, saved_fc = lingpy.util.pb, P.calign, CL.flat_cluster
+    saved_mcl = CL.mcl
     lingpy.util.pb = functools.partial(tqdm, leave=False, disable=True)
     logging.disable(logging.CRITICAL)
     try:
@@ -492,15 +531,37 @@ def run_impl(case):
                 mats.append(None)
             return r
 
+        clus_rec = []
+
+        def record(matrix, result):
+            try:
+                raw = [[x for x in row] for row in matrix]
+                M = [[F(float(x)) if not isinstance(x, int) else F(x) for x in row] for row in matrix]
+                d = {int(i): int(v) for i, v in dict(result).items()}
+                mats.append((raw, M, d))
+                clus_rec.append((M, sorted(d.items())))
+            except Exception:
+                mats.append(None)
+                clus_rec.append(None)
+
+        def mcl(*a, **kw):
+            r = saved_mcl(*a, **kw)
+            record(kw["matrix"] if "matrix" in kw else a[1], r)
+            return r
+
         def one_call(spec, ref):
             """One partial_cluster call on wl -> its observed result."""
             omit = spec.get("omit", [])
             col = DOC_DEFAULTS["ref"] if "ref" in omit else ref
             del mats[:]
+            del clus_rec[:]
             status = 0
             try:
                 kwargs = dict(method="sca", threshold=float(spec["thr"]), cluster_method=spec["method"],
                               imap_mode=spec["imap"], post_processing=spec["post"], ref=ref)
+                if spec["method"] == "external":
+                    del kwargs["cluster_method"]          # never looked at when a function is given
+                    kwargs["external_function"] = ext_function(spec["ext"], record)
                 for name in omit:
                     kwargs.pop(name, None)       # rely on the library's default
                 wl.partial_cluster(**kwargs)
@@ -511,7 +572,12 @@ def run_impl(case):
                 if "_tokens" not in str(e) or not any(v == "Z" for v in table.values()):
                     raise
                 status = 2
-            r = {"status": status, "out": [], "cmp": 2, "collisions": 0, "tie_excluded": False, "col": col}
+            r = {"status": status, "out": [], "cmp": 2, "collisions": 0, "tie_excluded": False, "col": col,
+                 "clus": [], "ranged": not (spec.get("ext") or {}).get("wild", False)}
+            if spec["method"] in ORACLE_METHODS:
+                if any(c is None for c in clus_rec):
+                    raise AssertionError("harness: a clustering result could not be recorded")
+                r["clus"] = [(M, list(items)) for M, items in clus_rec]
             if status:
                 return r
             out = [[(k, [int(x) for x in wl[k, col]]) for k, _ in ws] for ws in view]
@@ -541,12 +607,14 @@ def run_impl(case):
 
         P.calign = Shim()
         CL.flat_cluster = fc
+        CL.mcl = mcl
         try:
             pre = [one_call(spec, "pre%d" % i) for i, spec in enumerate(case.get("pre") or [])]
             main = one_call(case, "pid")
         finally:
             P.calign = saved_calign
             CL.flat_cluster = saved_fc
+            CL.mcl = saved_mcl
         res = dict(main)
         res.update(view=view, pre=pre, calls=len(table),
                    table=[(list(a), list(b), d if d == "Z" else str(F(d))) for (a, b), d in table.items()])
@@ -592,8 +660,13 @@ def table_lit(table):
     return L.lst([L.pair(L.pair(L.zlist(a), L.zlist(b)), ores_lit(d)) for a, b, d in table])
 
 
+def clus_lit(clus):
+    return L.lst([L.pair(L.qmat(M), L.lst([L.pair(L.nat(i), L.nat(v)) for i, v in items])) for M, items in clus])
+
+
 def call_lit(spec, r):
-    return L.record("call", [cfg_lit(spec), L.nat(r["cmp"]), L.nat(r["status"]), pids_lit(r["out"])])
+    return L.record("call", [cfg_lit(spec), L.nat(r["cmp"]), L.nat(r["status"]), pids_lit(r["out"]),
+                             clus_lit(r["clus"]), L.b(r["ranged"])])
 
 
 def render(case, res):
@@ -614,7 +687,11 @@ BITS = {0: "correspondence: partial ids of the model differ from the implementat
         4: "correspondence: strict/loose ids of the model differ from add_cognate_ids",
         5: "strict ids are not equal exactly for identical id sequences",
         6: "loose ids are not the connected components of 'shares a partial id' per concept (or shared between concepts)",
-        7: "a source id cell, as loaded, is not the list of integers that was written"}
+        7: "correspondence: the converter model (wordlist.rc class of the column + x.split()/int()) gives another "
+           "cell than the one the wordlist loaded from the file",
+        9: "a source id cell, as loaded from the file, is not the list of integers that was written",
+        8: "the clustering routine (mcl / external function) returned a dictionary outside its contract "
+           "(a position without id, or an id outside 1..n)"}
 
 
 def nontrivial(case, res):
@@ -750,6 +827,8 @@ def _split(t):
 
 def model_expr(case, res, rundir):
     from ..lib import coqrun
+    if case["method"] in ORACLE_METHODS:
+        return "not evaluated here (clustering routine replayed as an oracle; see the case code)"
     try:
         return coqrun.eval_expr(rundir, "replay_model", IMPORTS,
                                 "partial_cluster (table_dist %s) %s %s" % (
@@ -834,12 +913,12 @@ def d_run_impl(case):
             src_obj = load_wordlist(case, ["doculect", "concept", "tokens", "src"],
                                     [[l, c, ["t", "a"], list(ids)] for l, c, ids in case["rows"]])
         wl = P.Partial(src_obj, check=False)
-        loaded_ok = True
-        for i, (_, _, ids) in enumerate(case["rows"]):
-            cell = wl[i + 1, col]
-            if not (isinstance(cell, list) and len(cell) == len(ids)
-                    and all(isinstance(x, int) and x == y for x, y in zip(cell, ids))):
-                loaded_ok = False
+        cells = []
+        if case.get("input", "dict") == "file":
+            for i, (_, _, ids) in enumerate(case["rows"]):
+                cell = wl[i + 1, col]
+                ok = isinstance(cell, list) and all(isinstance(x, int) and not isinstance(x, bool) for x in cell)
+                cells.append((i + 1, cellstr[i], [int(x) for x in cell] if ok else None))
         derive_ids(wl, col, case)
         src, loose = [], []
         for c in wl.rows:
@@ -848,7 +927,7 @@ def d_run_impl(case):
             src.append([(int(k), [int(x) for x in case["rows"][int(k) - 1][2]]) for k in ks])
             loose.append([int(wl[k, "looseid"]) for k in ks])
         return {"src": src, "order": [int(k) for k in wl], "strict": [int(wl[k, "strictid"]) for k in wl],
-                "loose": loose, "loaded_ok": loaded_ok}
+                "loose": loose, "cells": cells, "header": case.get("header", "").lower()}
     finally:
         lingpy.util.pb = saved_pb
         logging.disable(logging.NOTSET)
@@ -856,7 +935,10 @@ def d_run_impl(case):
 
 def d_render(case, res):
     return L.record("derive_case", [pids_lit(res["src"]), L.natlist(res["order"]), L.natlist(res["strict"]),
-                                    L.lst([L.natlist(r) for r in res["loose"]]), L.b(res["loaded_ok"])])
+                                    L.lst([L.natlist(r) for r in res["loose"]]),
+                                    L.zlist([ord(ch) for ch in res["header"]]),
+                                    L.lst([L.pair(L.nat(k), L.pair(L.zlist([ord(ch) for ch in s]), L.opt(l, L.zlist)))
+                                           for k, s, l in res["cells"]])])
 
 
 def d_nontrivial(case, res):
